@@ -4,6 +4,7 @@ import (
 	"fmt"
 	"go/token"
 	"go/types"
+	"strings"
 
 	"golang.org/x/tools/go/ssa"
 )
@@ -66,6 +67,8 @@ func runC16(p *Program, r *Report) {
 	r.Rule("R16c", "SHIFT-WIDTH: in the closure of the exported position arithmetic a left shift by a variable amount (a row, a height) is computed in a 64-bit type")
 	r.Rule("R16d", "NO-SIGNED-LEAFCOUNT-ARITHMETIC: a leaf count converted to a signed integer type is only compared or passed on, never an operand of arithmetic")
 	checkShiftAndCountWidth(p, r, "R16c", "R16d", reach, 5)
+	r.Rule("R16e", "TOP-ROW-IS-A-ROW: a row (a DetectRow result or a loop counter) is compared with a forest height (a TreeRows result, a TotalRows field, a parameter that receives one at every call site) only inclusively: row <= H inside, row > H outside")
+	checkTopRowIsARow(p, r, "R16e")
 
 	// R16b
 	pp := p.Func("ProofPositions")
@@ -303,4 +306,187 @@ func checkShiftAndCountWidth(p *Program, r *Report, ruleShift, ruleCount string,
 	if ruleCount != "" {
 		r.Stats["signed_leafcount_conversions"] = nConv
 	}
+}
+
+// ---------------------------------------------------------------------------
+// R16e TOP-ROW-IS-A-ROW. A forest of height H has rows 0..H: the top row holds
+// the root of a perfect forest, and the sole survivor of a deleted tree can be
+// lifted onto it. A comparison between a row and a height therefore only ever
+// says "row <= H" (inside) or "row > H" (outside); "row < H" as a loop bound or
+// "row >= H" as an exclusion drops the top row. Rows and heights are told
+// apart by role: a height is a result of TreeRows, a load of a TotalRows
+// field, or a uint8 parameter that receives a height at every call site; a row
+// is a result of DetectRow or a counter that a loop increments.
+
+func heightParams(p *Program) map[*ssa.Parameter]bool {
+	rowsFn := p.Func("TreeRows")
+	set := map[*ssa.Parameter]bool{}
+	isU8 := func(t types.Type) bool {
+		b, ok := t.Underlying().(*types.Basic)
+		return ok && b.Kind() == types.Uint8
+	}
+	var isHeight func(v ssa.Value, d int) bool
+	isHeight = func(v ssa.Value, d int) bool {
+		if d > 5 {
+			return false
+		}
+		switch x := v.(type) {
+		case *ssa.Call:
+			return rowsFn != nil && x.Common().StaticCallee() == rowsFn
+		case *ssa.Parameter:
+			return set[x]
+		case *ssa.Convert:
+			return isHeight(x.X, d+1)
+		case *ssa.UnOp:
+			if fa, ok := x.X.(*ssa.FieldAddr); ok && x.Op == token.MUL {
+				return fieldName(fa.X.Type(), fa.Field) == "TotalRows"
+			}
+		case *ssa.Field:
+			return fieldName(x.X.Type(), x.Field) == "TotalRows"
+		case *ssa.Phi:
+			for _, e := range x.Edges {
+				if !isHeight(e, d+1) {
+					return false
+				}
+			}
+			return len(x.Edges) > 0
+		}
+		return false
+	}
+	type site struct {
+		fn  *ssa.Function
+		idx int
+	}
+	for changed := true; changed; {
+		changed = false
+		all := map[*ssa.Parameter]bool{}
+		seen := map[*ssa.Parameter]bool{}
+		for _, fn := range p.Funcs {
+			for _, b := range fn.Blocks {
+				for _, in := range b.Instrs {
+					c, ok := in.(ssa.CallInstruction)
+					if !ok {
+						continue
+					}
+					callee := c.Common().StaticCallee()
+					if callee == nil || callee.Pkg != p.SSA || len(callee.Params) != len(c.Common().Args) {
+						continue
+					}
+					for i, a := range c.Common().Args {
+						par := callee.Params[i]
+						if !isU8(par.Type()) {
+							continue
+						}
+						if !seen[par] {
+							seen[par] = true
+							all[par] = true
+						}
+						if !isHeight(a, 0) {
+							all[par] = false
+						}
+					}
+				}
+			}
+		}
+		for par, ok := range all {
+			if ok && !set[par] {
+				set[par] = true
+				changed = true
+			}
+		}
+	}
+	return set
+}
+
+func checkTopRowIsARow(p *Program, r *Report, rule string) {
+	rowsFn, detect := p.Func("TreeRows"), p.Func("DetectRow")
+	if rowsFn == nil || detect == nil {
+		r.MissingAnchor(rule, "TreeRows / DetectRow", "row functions not found")
+		return
+	}
+	hp := heightParams(p)
+	var isHeight func(v ssa.Value, d int) bool
+	isHeight = func(v ssa.Value, d int) bool {
+		if d > 5 {
+			return false
+		}
+		switch x := v.(type) {
+		case *ssa.Call:
+			return x.Common().StaticCallee() == rowsFn
+		case *ssa.Parameter:
+			return hp[x]
+		case *ssa.Convert:
+			return isHeight(x.X, d+1)
+		case *ssa.UnOp:
+			if fa, ok := x.X.(*ssa.FieldAddr); ok && x.Op == token.MUL {
+				return fieldName(fa.X.Type(), fa.Field) == "TotalRows"
+			}
+		case *ssa.Field:
+			return fieldName(x.X.Type(), x.Field) == "TotalRows"
+		}
+		return false
+	}
+	var isRow func(v ssa.Value, d int) bool
+	isRow = func(v ssa.Value, d int) bool {
+		if d > 5 {
+			return false
+		}
+		switch x := v.(type) {
+		case *ssa.Call:
+			return x.Common().StaticCallee() == detect
+		case *ssa.Convert:
+			return isRow(x.X, d+1)
+		case *ssa.Phi:
+			// a counter: a header phi that receives itself plus one around the loop
+			if len(latches(x.Block())) == 0 {
+				return false
+			}
+			for _, e := range x.Edges {
+				if bo, ok := e.(*ssa.BinOp); ok && bo.Op == token.ADD && bo.X == ssa.Value(x) {
+					if c, ok := bo.Y.(*ssa.Const); ok && c.Value != nil && c.Value.String() == "1" {
+						return true
+					}
+				}
+			}
+		}
+		return false
+	}
+	n := 0
+	for _, fn := range p.Funcs {
+		if fn.Blocks == nil || strings.Contains(p.FuncName(fn), "String") {
+			continue // debug printers
+		}
+		idx := 0
+		for _, b := range fn.Blocks {
+			for _, in := range b.Instrs {
+				bo, ok := in.(*ssa.BinOp)
+				if !ok {
+					continue
+				}
+				var op token.Token
+				switch {
+				case isRow(bo.X, 0) && isHeight(bo.Y, 0):
+					op = bo.Op
+				case isHeight(bo.X, 0) && isRow(bo.Y, 0):
+					op = map[token.Token]token.Token{token.LSS: token.GTR, token.GTR: token.LSS, token.LEQ: token.GEQ, token.GEQ: token.LEQ, token.EQL: token.EQL, token.NEQ: token.NEQ}[bo.Op]
+				default:
+					continue
+				}
+				switch op {
+				case token.LSS, token.GEQ, token.LEQ, token.GTR:
+				default:
+					continue
+				}
+				idx++
+				n++
+				key := fmt.Sprintf("%s/row-vs-height#%d", p.FuncName(fn), idx)
+				if op == token.LEQ || op == token.GTR {
+					r.Discharge(rule, key, posOf(p, bo), "the row is compared inclusively with the height (row <= H inside, row > H outside)", true)
+				} else {
+					r.Violate(rule, key, posOf(p, bo), fmt.Sprintf("a row is compared with a forest height using %s: a forest of height H has rows 0..H, so the top row - the root of a perfect forest, or a leaf lifted onto it - is treated as outside", map[token.Token]string{token.LSS: "row < H", token.GEQ: "row >= H"}[op]), "in "+p.FuncName(fn))
+				}
+			}
+		}
+	}
+	r.Floor(rule, "comparisons of a row with a forest height", n, 8)
 }
